@@ -82,6 +82,7 @@ type Run struct {
 	}
 	RunDir   string
 	RaceLogs []string
+	Batch    []spec.Event // events a child emitted for the batch as a whole (case -1)
 	mu       sync.Mutex
 }
 
@@ -354,6 +355,7 @@ func (r *Run) runBatch(vhost, vplugin, name string, cases []spec.Case, retry boo
 	}
 	var rerun []spec.Case
 	r.mu.Lock()
+	r.Batch = append(r.Batch, byCase[-1]...)
 	for _, c := range cases {
 		switch {
 		case ended[c.ID]:
